@@ -92,6 +92,12 @@ func toNumber(v any) any {
 		uint:
 		return v
 	case string:
+		// UnmarshalJSON leaves the value untouched, without an error, for
+		// empty input and for the JSON null.
+		if v == "" || v == "null" {
+			return nil
+		}
+
 		var d decimal128.Decimal
 		if err := d.UnmarshalJSON([]byte(v)); err != nil {
 			return nil
